@@ -449,8 +449,17 @@ def collect_inputs_for_node(
     Returns:
         Dict mapping input names to their values
     """
+    from hypergraph.nodes.graph_node import GraphNode
+
     inputs = {}
     for param in node.inputs:
+        if isinstance(node, GraphNode) and not node.map_config:
+            # A signature default of a node INSIDE the nested graph is resolved (and copied per
+            # consumer and per run) by the nested run itself; passing one shared copy in would
+            # make the inner consumers of that parameter share one object
+            source, _ = get_value_source(param, node, graph, state, provided_values)
+            if source == ValueSource.DEFAULT:
+                continue
         inputs[param] = _resolve_input(param, node, graph, state, provided_values)
     return inputs
 
